@@ -846,6 +846,10 @@ class Interp:
                         tv = hv
                 if tv is not None:
                     v = tv
+            elif isinstance(st.target, ast.Name) and getattr(fr.spec, "annotated_value", None) is not None and fr.qual == fr.spec.qual:
+                hv = fr.spec.annotated_value(cx, st.target.id, ast.unparse(st.annotation), v)  # the spec's model of this freshly built container
+                if hv is not None:
+                    v = hv
             self.assign(cx, fr, st.target, v)
 
     def st_AugAssign(self, cx, fr, st):
